@@ -38,13 +38,28 @@ META = {
     "the sink opens for writing sits on a raw file that accepts only 1..4096 bytes per write call, as write(2) may, "
     "so an unchecked unbuffered write truncates while buffered writers still produce the right file) and limits (every subset of the four keywords; accessor list by "
     "introspection of the PartsWriter protocol) are compared exactly; an independent two-sided oracle evaluates "
-    "the property on every real run.",
+    "the property on every real run.  Histories: earlier phases in the same process / on the same scheduler (a "
+    "writer built while no client existed, an in-process attempt, cluster attempts that crashed / were aborted / "
+    "finalised; the client appears and disappears between phases) precede the attempt whose interleavings are "
+    "explored; the real _dask_client, MultiPartUpload.writer, prep_client, _shared run and `_state`, the scheduler's "
+    "variables and locks and the S3 service persist; the oracle is evaluated relative to the attempt (exactly one "
+    "upload of its own, nothing under an older id; model: initWithLock / initAfterPrep, local_once_later_attempt, "
+    "dist_once_after_prep).  Writers and sinks are also driven through pickle / copy / deepcopy copies (per-worker "
+    "copies, copies taken after the first write, finalise through a copy) and every copy must report the "
+    "configured limits for every keyword subset.  Cross-process stage (c18_xproc): the writer - unpickled, "
+    "prepared or not, or rebuilt from the same arguments - is handed to three child interpreters with distinct "
+    "PYTHONHASHSEED; the Variable / Lock names their real first write asks for, _build_name for every prefix and "
+    "the dask tokens must agree with the client process and with each other, and the names computed in the "
+    "children feed the shared Variable / Lock store of the protocol simulation (model DistN with per-worker names: "
+    "dist_once_named, dist_names_cex).  A sequential write / write-through-pickled-copy / finalise-through-deepcopy "
+    "also runs on a REAL in-process distributed cluster (real Variable and Lock), and the fakes' call signatures "
+    "are compared with the installed library on every run.",
     "note": "Trusted: Lean kernel + {propext, Classical.choice, Quot.sound}; the fakes at the client boundary "
     "(S3 client, distributed.get_client/Variable/Lock, the module dict _s3._state and the Lock constructor "
     "_s3.Lock, the open/Path names seen by _mpu_fs under the short-write fault model, an observable uploadId "
     "attribute on a subclass that inherits all methods) and the scheduler; sequentially consistent execution of "
     "the steps.  Runtime behaviour the model cannot exhibit: CPython Lock fairness, the real distributed "
-    "Variable/Lock (no cluster in the sandbox), _safe_get timeouts (a spurious None while the variable is set "
+    "Variable/Lock under races (the real in-process cluster stage is sequential), _safe_get timeouts (a spurious None while the variable is set "
     "could initiate twice).  The cluster theorem holds until a finalise has deleted the shared variable "
     "(cleanup_client, its last action): a first write that starts after, or races with, a completed finalise can "
     "fail or initiate a second upload (dist_after_delete_cex; observed on the real code) - excluded by mpu_write, "
@@ -69,21 +84,46 @@ def sched_line(variant: str, kinds: List[str], workers: Optional[List[int]], fin
     return f"c18 dist {list_s(kinds)} {list_s(workers)} {list_s(fine)}{extra}"
 
 
+def named_line(kinds, workers, fine, opts) -> str:
+    """model with explicit names (DistN): worker w uses the Variable / Lock names its own interpreter computed;
+    a prepared writer ships the Variable, so only the lock name is computed on the worker"""
+    xn = opts["xnames"]
+    nw = max(workers) + 1
+    ids: Dict[str, int] = {}
+
+    def num(name):
+        return ids.setdefault(name, len(ids))
+
+    ln = [num("L:" + str(xn[w % len(xn)]["MPULock"])) for w in range(nw)]
+    ids = {}
+    vn = [num("V:" + (str(xn[w % len(xn)]["MPUpload"]) if opts.get("build_without_client") else "shipped"))
+          for w in range(nw)]
+    return f"c18 distn {list_s(kinds)} {list_s(workers)} {list_s(vn)} {list_s(ln)} {list_s(fine)}"
+
+
 def check_run(R: Run, variant: str, kinds, workers, gate: bool, obs: Dict[str, Any], tag: str,
               oracle: bool = True):
     """register the correspondence case of one real run and evaluate the property on it"""
     line = sched_line(variant, kinds, workers, obs["fine"], obs.get("extra", ""))
+    if isinstance(gate, dict) and gate.get("xnames") and variant == "dist":
+        line = named_line(kinds, workers, obs["fine"], gate)
     outs = obs["outcomes"]
     sig = f"{variant}|{tag}|" + ("raised" if any(o not in ("ok",) for o in outs) else "ok")
     R.corr(line, lambda: obs["text"], sig=sig)
     case = {"variant": variant, "kinds": kinds, "workers": workers, "gate": gate, "schedule": obs["fine"]}
+    if obs.get("pre_error"):
+        R.oracle(False, f"{variant}:earlier-attempt-raises", case, f"a phase of the history raised {obs['pre_error']}",
+                 trivial=True)
     if not oracle:
         pre_delete_oracle(R, variant, case, obs)
         return
     R.oracle(not obs["deadlock"] and obs["lock"] is None and all(o != "running" for o in outs),
              f"{variant}:deadlock-or-lock-left-held", case,
              f"threads {outs}, lock holder {obs['lock']} after a complete schedule", trivial=True)
-    R.oracle(all(o in ("ok", "running") for o in outs), f"{variant}:write-fails-in-initiation-race", case,
+    odd = sorted({o for o in outs if o not in ("ok", "running", "AssertionError")})
+    R.oracle(not odd, f"{variant}:write-raises-{'-'.join(odd) or 'other-exception'}", case,
+             f"thread outcomes {outs} ({obs['text'][-200:]})", trivial=True)
+    R.oracle(all(o in ("ok", "running") for o in outs) or bool(odd), f"{variant}:write-fails-in-initiation-race", case,
              f"thread outcomes {outs} ({obs['text'][-200:]})")
     R.oracle(obs["ncreate"] == 1, f"{variant}:not-exactly-one-upload-initiated", case,
              f"create_multipart_upload called {obs['ncreate']} times")
@@ -128,19 +168,19 @@ def pre_delete_oracle(R: Run, variant: str, case, obs):
              f"calls before the deletion: {calls_pre}")
 
 
-def schedules(R: Run):
+def schedules(R: Run, xnames=None):
     from . import c18_sched as S
 
     procs = max(1, min(14, (os.cpu_count() or 2) - 2))
     pool = S.make_pool(procs) if procs > 1 else None  # forked once, before any scheduler thread exists
     try:
-        _schedules(R, S, procs, pool)
+        _schedules(R, S, procs, pool, xnames)
     finally:
         if pool is not None:
             pool.terminate()
 
 
-def _schedules(R: Run, S, procs, pool):
+def _schedules(R: Run, S, procs, pool, xnames=None):
     CW = frozenset(S.COARSE | {"wr"})
     NOGC = frozenset(S.COARSE | {"rd", "wr", "sget"})  # everything but get_client(), which is thread-local
     C2 = frozenset({"acq", "create", "upload", "complete", "vget"})
@@ -227,6 +267,16 @@ def _schedules(R: Run, S, procs, pool):
     for nm, pre in hist_local.items():
         exhaustive("local", ["w1", "w2"], None, HS, f"hist:{nm}", gate={"pre": pre})
         exhaustive("local", ["w1", "w2", "f"], None, S.COARSE, f"hist:{nm}", gate={"pre": pre, "gate": True})
+    # ---- names computed by the real code in separate interpreter processes (distinct hash salts) feed the
+    # shared Variable / Lock store: worker w uses the names child process w asked for
+    if xnames:
+        for o in ({"xnames": xnames, "build_without_client": True}, {"xnames": xnames},
+                  {"xnames": xnames[::-1], "build_without_client": True, "gate": True}):
+            kinds = ["w1", "w2", "f"] if o.get("gate") else ["w1", "w2"]
+            wk = [0, 1, 2] if o.get("gate") else [0, 1]
+            exhaustive("dist", kinds, wk, HS, "xproc-names" + ("" if o.get("build_without_client") else "-prepared"),
+                       gate=o)
+        exhaustive("dist", ["w1", "w2"], [0, 1], HS, "built-before-client", gate={"build_without_client": True})
     # ---- copies of the writer: per-worker copies by deepcopy instead of pickle; copies (pickle / deepcopy /
     # copy) taken after the first write and used for later writes and the finalise
     exhaustive("dist", ["w1", "w2"], [0, 1], HS, "copies:deepcopy", gate={"copies": "deepcopy"})
@@ -244,6 +294,70 @@ def _schedules(R: Run, S, procs, pool):
     rand("dist", ["w1", "w2", "w3"], [0, 0, 0], n // 2)
     rand("dist", ["w1", "w2", "w3", "f"], [0, 1, 0, 2], n, gate=True)
     rand("dist", ["w1", "f", "w2"], [0, 1, 1], n // 2, oracle=False)
+
+
+# ------------------------------------------------------------------ cross-process stage
+def xproc_start(R: Run):
+    from . import c18_xproc as X
+
+    objs = X.make_objects()
+    req = {"mode": "names", "objects": [{k: o[k] for k in ("bucket", "key", "kw", "pickles")} for o in objs]}
+    seeds = ["0", "1", str(R.rng.randrange(2, 1 << 32))]
+    return {
+        "objs": objs, "seeds": seeds,
+        "names": [X.spawn(req, hs) for hs in seeds],
+        "real": X.spawn({"mode": "realcluster", "bucket": "bucket", "key": "some/key.tif",
+                         "kw": {"ContentType": "image/tiff"}}, None),
+    }
+
+
+def xproc_names(R: Run, h) -> Optional[List[Dict[str, str]]]:
+    """every interpreter (distinct hash salts; writer unpickled - prepared or not - or rebuilt from the same
+    arguments) must ask the scheduler for the same Variable / Lock names and compute the same tokens as the
+    client process; returns, per child process, the names its real code asked for"""
+    from . import c18_sched as S
+    from . import c18_xproc as X
+
+    sig = S.fake_signatures_match()
+    R.oracle(all(v["ok"] for v in sig.values()), "harness:fake-distributed-signature-differs", sig,
+             f"fake Variable/Lock signatures differ from the installed distributed: {sig}", trivial=True)
+    res = [X.collect(p, 90) for p in h["names"]]
+    bad = [r for r in res if "infra" in r]
+    if bad:
+        R.notes.append(f"cross-process stage unavailable: {bad[0]['infra'][:300]}")
+        return None
+    fields = PREF = ["MPUpload", "MPULock", "token", "mpu_token", "var", "lock"]
+    for oi, ob in enumerate(h["objs"]):
+        for flavour in ("unprepared", "prepared", "rebuilt"):
+            want = {f: ob["parent"][flavour][f] for f in fields}
+            got = [{f: r["objects"][oi][flavour][f] for f in fields} for r in res]
+            ok = all(g == want for g in got) and want["var"] is not None and want["lock"] is not None
+            # ... and the three ways of obtaining the writer agree among themselves
+            ok = ok and all(ob["parent"][fl][f] == want[f] for fl in ("unprepared", "prepared", "rebuilt")
+                            for f in ("MPUpload", "MPULock", "token", "var", "lock"))
+            R.oracle(ok, "dist:shared-name-differs-across-processes",
+                     {"bucket": ob["bucket"], "key": ob["key"], "writer": flavour, "hashseeds": h["seeds"]},
+                     f"client process: {want}; worker processes (PYTHONHASHSEED {h['seeds']}): {got}")
+    # names asked for by the first write of a not prepared writer in each child (first object)
+    return [{"MPUpload": r["objects"][0]["unprepared"]["var"], "MPULock": r["objects"][0]["unprepared"]["lock"]}
+            for r in res]
+
+
+def xproc_real(R: Run, h):
+    from . import c18_xproc as X
+
+    r = X.collect(h["real"], 120)
+    if "infra" in r or (r.get("cluster") or "").startswith("unavailable"):
+        R.notes.append(f"real in-process cluster stage unavailable: {str(r)[:300]}")
+        return
+    calls = r["calls"]
+    creates = [c for c in calls if c[0] == "create"]
+    ids = {c[-1] for c in calls}
+    ok = r["error"] is None and len(creates) == 1 and len(ids) == 1 and \
+        sorted(c[1] for c in calls if c[0] == "upload") == [1, 2] and any(c[0] == "complete" for c in calls)
+    R.oracle(ok, "dist:real-cluster-protocol-fails", {"stage": "real in-process distributed cluster, sequential "
+             "first write / second write through a pickled copy / finalise through a deep copy"},
+             f"error {r['error']!r}, storage calls {calls}")
 
 
 # ------------------------------------------------------------------ file sink
@@ -559,9 +673,12 @@ def limit_cases(R: Run, root: Path):
 def run(R: Run):
     root = Path(tempfile.mkdtemp(prefix="c18-"))
     try:
+        xh = xproc_start(R)  # child interpreters work while the sink / limits stages run
         limit_cases(R, root)
         sink_cases(R, root)
-        schedules(R)
+        xnames = xproc_names(R, xh)
+        xproc_real(R, xh)
+        schedules(R, xnames)
     finally:
         shutil.rmtree(root, ignore_errors=True)
     R.exhaustive = False
@@ -594,6 +711,16 @@ def replay(R: Run, rec) -> int:
     key = rec.get("key", "")
     print("replay key:", key)
     print("replay case:", case)
+    if key in ("dist:shared-name-differs-across-processes", "dist:real-cluster-protocol-fails",
+               "harness:fake-distributed-signature-differs"):
+        probe = Run(R.prop, R.tier, R.seed)
+        xh = xproc_start(probe)
+        xproc_names(probe, xh)
+        xproc_real(probe, xh)
+        hits = [f for f in probe.oracle_failures if f["key"] == key]
+        for f in hits[:3]:
+            print("FAILS:", f["key"], "-", f["what"][:1200])
+        return 1 if hits else 0
     if key.startswith("local:") or key.startswith("dist:"):
         from . import c18_sched as S
 
@@ -603,6 +730,8 @@ def replay(R: Run, rec) -> int:
         try:
             R.proof_stage()
             line = sched_line(case["variant"], case["kinds"], case["workers"], case["schedule"], obs.get("extra", ""))
+            if isinstance(case.get("gate"), dict) and case["gate"].get("xnames") and case["variant"] == "dist":
+                line = named_line(case["kinds"], case["workers"], case["schedule"], case["gate"])
             print("model (repaired code):", run_driver("C18", [line])[0])
             if case["variant"] == "local":
                 print("model (code as found):", run_driver("C18", [line.replace("local T", "local F", 1)])[0])
